@@ -290,6 +290,55 @@ def cc_stream(rng, n):
     return out
 
 
+PAC_ROW = {1: (0x11, 0x40), 2: (0x11, 0x60), 3: (0x12, 0x40), 4: (0x12, 0x60), 5: (0x15, 0x40), 6: (0x15, 0x60),
+           7: (0x16, 0x40), 8: (0x16, 0x60), 9: (0x17, 0x40), 10: (0x17, 0x60), 11: (0x10, 0x40), 12: (0x13, 0x40),
+           13: (0x13, 0x60), 14: (0x14, 0x40), 15: (0x14, 0x60)}
+
+
+def cc_script(rng, n_steps):
+    """well-formed caption scripts: roll-up with every base row (also rows smaller than the roll-up depth), pop-on with
+    EOC, paint-on, text mode; control codes doubled as on field 1"""
+    out = []
+    f = 1 if rng.random() < 0.8 else 2
+    ch = rng.randrange(2)
+    def ctl(c2):
+        c1 = 0x14 | (ch << 3)
+        out.append((f, T.par(c1), T.par(c2)))
+        if f == 1: out.append((f, T.par(c1), T.par(c2)))
+    def pac(row, extra=0):
+        a, b = PAC_ROW[row]
+        out.append((f, T.par(a | (ch << 3)), T.par(b | (extra & 0x1F))))
+        if f == 1: out.append((f, T.par(a | (ch << 3)), T.par(b | (extra & 0x1F))))
+    def txt(s):
+        bs = [ord(c) & 0x7F for c in s]
+        if len(bs) % 2: bs.append(0)
+        for i in range(0, len(bs), 2): out.append((f, T.par(bs[i]), T.par(bs[i + 1])))
+    for _ in range(n_steps):
+        mode = rng.choice(["ru", "ru", "pop", "paint", "text"])
+        if mode == "ru":
+            ctl(rng.choice([0x25, 0x26, 0x27]))
+            for _ in range(rng.randrange(1, 5)):
+                if rng.random() < 0.7: pac(rng.randrange(1, 16), rng.randrange(32))
+                txt(rng.choice(WORDS) + " " + rng.choice(WORDS))
+                for _ in range(rng.randrange(1, 4)): ctl(0x2D)
+                if rng.random() < 0.2: ctl(rng.choice([0x21, 0x24, 0x2C, 0x2E]))
+        elif mode == "pop":
+            ctl(0x20)
+            if rng.random() < 0.5: ctl(0x2E)
+            for _ in range(rng.randrange(1, 4)):
+                pac(rng.randrange(1, 16), rng.randrange(32)); txt(rng.choice(WORDS) * rng.randrange(1, 8))
+                if rng.random() < 0.3: out.append((f, T.par(0x17 | (ch << 3)), T.par(0x21 + rng.randrange(3))))
+            ctl(0x2F)
+        elif mode == "paint":
+            ctl(0x29); pac(rng.randrange(1, 16), rng.randrange(32)); txt(rng.choice(WORDS) * rng.randrange(1, 10))
+            for _ in range(rng.randrange(0, 3)): ctl(rng.choice([0x21, 0x24, 0x2D]))
+        else:
+            ctl(rng.choice([0x2A, 0x2B])); txt(rng.choice(WORDS) * rng.randrange(1, 12)); ctl(0x2D)
+        if rng.random() < 0.2: ch ^= 1
+        if rng.random() < 0.1: f = 3 - f
+    return out
+
+
 def xds_packet(rng):
     """pairs (field 2) of one XDS packet; sometimes interrupted / corrupted"""
     cls = rng.choice([1, 3, 5, 7, 9, 0xB, 0xD, 1, 1, 5])
